@@ -541,6 +541,7 @@ func (s *c16Scn) emit(items []c16Item, label string) {
 			enc.Int(0).Int(it.Order).Bool(it.Other).Bool(it.Observed)
 		}
 	}
+	enc.Len(0) // no configuration
 	inCase := in
 	inCase.Steps = append([]c16Step(nil), s.steps...)
 	desc := map[string]any{}
